@@ -240,11 +240,30 @@ func (d *Decoder) unmarshal(val reflect.Value, tagType byte) error {
 						val.Index(i).Set(reflect.ValueOf(ba[i]))
 					}
 				}
+			case reflect.Bool:
+				buf := reflect.MakeSlice(vt, int(aryLen), int(aryLen))
+				for i := range ba {
+					buf.Index(i).SetBool(ba[i] != 0)
+				}
+				val.Set(buf)
 			default:
 				return errors.New("cannot parse TagByteArray to slice of" + ve.String())
 			}
 		} else if vt.Kind() == reflect.Interface {
 			val.Set(reflect.ValueOf(ba))
+		} else if vt.Kind() == reflect.Array && vt.Len() == int(aryLen) {
+			for i := range ba {
+				switch elem := val.Index(i); elem.Kind() {
+				case reflect.Int8:
+					elem.SetInt(int64(int8(ba[i])))
+				case reflect.Uint8:
+					elem.SetUint(uint64(ba[i]))
+				case reflect.Bool:
+					elem.SetBool(ba[i] != 0)
+				default:
+					return errors.New("cannot parse TagByteArray to " + vt.String())
+				}
+			}
 		} else {
 			return errors.New("cannot parse TagByteArray to " + vt.String())
 		}
